@@ -18,7 +18,9 @@ import common as C
 PROP = 'C17'
 THEOREMS = ['Lessm.Builtins.C17_round_near', 'Lessm.Builtins.C17_round_tie', 'Lessm.Builtins.C17_round_int',
             'Lessm.Builtins.C17_round_odd', 'Lessm.Builtins.C17_floor', 'Lessm.Builtins.C17_ceil',
-            'Lessm.Builtins.C17_apply', 'Lessm.Builtins.C17_incdec', 'Lessm.Builtins.C17_passthrough']
+            'Lessm.Builtins.C17_apply', 'Lessm.Builtins.C17_incdec', 'Lessm.Builtins.C17_passthrough'] + [
+            'Lessm.Num.' + t for t in ('C17_exp_partition', 'C17_exp_conservative', 'C17_exp_nil', 'C17_exp_unit_no_exp', 'C17_exp_e_letter',
+                                      'C17_exp_em', 'C17_exp_reads', 'C17_exp_value_neg', 'C17_exp_value_pos', 'C17_exp_value_nosign')]
 FNS = ['round', 'ceil', 'floor', 'increment', 'decrement', 'percentage']
 UNITS = ['', 'px', 'em', '%', 's']
 # (0.00001 / 0.00005: magnitudes whose repr() is in exponent form when they stand alone - seeded C17-3)
@@ -98,6 +100,48 @@ ARG_ATOMS = [('1px', '1px'), ('2', '2'), ('-3.5em', '-3.5em'), ('"a b"', '"a b"'
              ('bar(2*3)', 'bar(6)'), ('50%', '50%'), ('0.5', '0.5'), ('@u', '7px'), ('10 / 4', '2.5'),
              # blanks before a comma / parenthesis inside a string must survive (seeded C17-4: the passed-through text was post-processed)
              ('"a ,b"', '"a ,b"'), ("'x ,'", "'x ,'"), ('"(a )"', '"(a )"'), ('"  "', '"  "'), ('"f( 1 ,2 )"', '"f( 1 ,2 )"')]
+
+
+def split_correspondence(rng, n):
+    """utility.split_unit / analyze_number (with the exponent group of the repair C17-exponent-arg) against Lessm.Num.splitUnitE /
+    analyzeE on number-like lexemes, in-process -> (count, disagreements)"""
+    import sys
+    sys.path.insert(0, C.REPO)
+    try:
+        from lesscpy.lessc import utility as U
+    finally:
+        sys.path.pop(0)
+    lex = ['1e-05em', '-5e-05px', '1em', '2ex', '3e2em', '-.5e', '1e', '1e+', '1e-', '1e+3', '1e3', '7', '-7', '.5', '5.', '1.5e-3%', '12e', '1e-05',
+           '0e0', '-0', '1.2.3', '..', '-', 'e5', '1e5e5', '1ee5', '1E5', '1e-5-5', '10px', '-10.25em', '1e10s']
+    mant = ['1', '-1', '0.5', '.25', '-12.75', '5e', '7e-', '3e+', '2e1', '9e-04', '4e+2', '6E3']
+    unit = ['', 'px', 'em', 'ex', 'e', '%', 's', 'e5', 'rem', 'deg']
+    for _ in range(n):
+        lex.append(rng.choice(mant) + rng.choice(unit))
+    lex = sorted(set(lex))
+    try:
+        model = C.Driver().run([('c17.split', l) for l in lex])
+    except Exception as e:  # noqa
+        return len(lex), [(lex[0], 'DRIVER: %r' % e, None)]
+    dis = []
+    for l, m in zip(lex, model):
+        n_, u_ = U.split_unit(l)
+        if n_ == '' and u_ == '':
+            real = 'none'
+        else:
+            try:
+                v = int(n_) if re.fullmatch(r'-?\d+', n_) else float(n_)
+                real_v = Num_ratstr(Fraction(Decimal(n_)))
+                del v
+            except Exception:  # noqa
+                real_v = 'nan'
+            real = '%s [%s] %s' % (n_, u_, real_v)
+        if real != m:
+            dis.append((l, m, real))
+    return len(lex), dis
+
+
+def Num_ratstr(q):
+    return '%d/%d' % (q.numerator, q.denominator)
 
 
 def run(tier):
@@ -196,6 +240,9 @@ def run(tier):
         elif umodel[i] is not None and umodel[i] != canon(got):
             disagreements.append(('unknown', urender(i, c), umodel[i], got))
     chk.sample({'source': urender(3, ucases[3]), 'real': ures[3][1] if ures[3][0] == 'ok' else list(ures[3]), 'model': umodel[3]})
+    nsplit, sdis = split_correspondence(rng, 300 if tier == 'quick' else 5000)
+    chk.cov['split_unit_lexemes_compared'] = nsplit
+    disagreements.extend(('split_unit',) + d for d in sdis[:3])
     chk.cov['disagreements_checked'] = len(disagreements)
     chk.cov['exhaustive'] = (tier == 'thorough')
     chk.cov['grid_values'] = len(vals)
